@@ -28,7 +28,8 @@ Open Scope Z_scope.
 Lemma for_loop_fold_inv {A B} (I : list B -> A -> Prop) (env_of : A -> env) (g : B -> pv)
       (f : A -> B -> A) P cf lf t b :
   (forall a y r, I (y :: r) a ->
-     (do e1 <- assign P cf (env_of a) t (g y); do o <- exec_block P cf lf e1 b; PyLite.Ok (iter_ok o))
+     (do e1 <- attach (env_of a) (assign P cf (env_of a) t (g y));
+      do o <- exec_block P cf lf e1 b; PyLite.Ok (iter_ok o))
      = PyLite.Ok (Some (env_of (f a y))) /\ I r (f a y)) ->
   forall l a, I l a ->
     for_loop P cf lf t b (map g l) (env_of a) = PyLite.Ok (ONorm (env_of (fold_left f l a))).
@@ -36,8 +37,8 @@ Proof.
   intros H l. induction l as [|y r IH]; intros a Ha; cbn [map fold_left].
   - apply for_loop_nil.
   - rewrite for_loop_cons. destruct (H a y r Ha) as [H1 H2].
-    destruct (assign P cf (env_of a) t (g y)) as [e1| | |]; cbn [bind] in *; try discriminate.
-    destruct (exec_block P cf lf e1 b) as [o| | |]; cbn [bind] in *; try discriminate.
+    destruct (assign P cf (env_of a) t (g y)) as [e1| | | |]; cbn [attach bind] in *; try discriminate.
+    destruct (exec_block P cf lf e1 b) as [o| | | |]; cbn [bind] in *; try discriminate.
     destruct o; cbn [iter_ok loop_next] in *; inversion H1; subst; apply IH; exact H2.
 Qed.
 
@@ -219,6 +220,14 @@ Lemma assign_attr_setattr_exc P cf e q a v c fs f x :
   assign_attr P cf e q a v = Exc x.
 Proof. intros H1 H2 H3. unfold assign_attr. rewrite H1, H2, H3. reflexivity. Qed.
 
+(** the same when [__setattr__] is a method of the program: its raise carries a state *)
+Lemma assign_attr_setattr_excS P cf e q a v c fs f x st :
+  path_get P e q = Some (PObj c fs) ->
+  find_method P mro_depth c "__setattr__" = Some f ->
+  cf f [PObj c fs; PStr a; v] [] = ExcS x st ->
+  assign_attr P cf e q a v = ExcS x st.
+Proof. intros H1 H2 H3. unfold assign_attr. rewrite H1, H2, H3. reflexivity. Qed.
+
 (** * The records *)
 Definition chan_fields (chan typ vdim : Z) (name : string) (en div : pv) (mlen : Z) : list (string * pv) :=
   let dtype := Z.land typ 31 in
@@ -308,7 +317,8 @@ Proof. pystart. pyrun. Qed.
 Lemma chan_setattr_ro_func n chan typ vdim name en div mlen a v :
   String.eqb a "div" = false -> String.eqb a "en" = false ->
   call_func program (S n) DDeviceChannelData_DsetattrD
-    [chan_rec_gen chan typ vdim name en div mlen; PStr a; v] [] = Exc "TypeError".
+    [chan_rec_gen chan typ vdim name en div mlen; PStr a; v] [] =
+  ExcS "TypeError" (self_st (chan_rec_gen chan typ vdim name en div mlen)).
 Proof. intros Hd He. pystart. pyrun. Qed.
 
 Lemma chan_setattr_div_func n chan typ vdim name en div mlen v :
@@ -393,7 +403,8 @@ Qed.
 
 (** * 3. C19 on the device record *)
 Lemma dev_setattr_func n chmax flags rxp a v :
-  call_func program (S n) DDeviceData_DsetattrD [dev_rec chmax flags rxp; PStr a; v] [] = Exc "TypeError".
+  call_func program (S n) DDeviceData_DsetattrD [dev_rec chmax flags rxp; PStr a; v] [] =
+  ExcS "TypeError" (self_st (dev_rec chmax flags rxp)).
 Proof. pystart. pyrun. Qed.
 
 #[local] Hint Resolve dev_setattr_func : pyspec.
@@ -555,14 +566,14 @@ Lemma en_channels_update_func n cm flags rxp chans l :
   call_func program (S (S n)) Device_en_channels_update [dev_obj' cm flags rxp chans; PList (map PBool l)] [] =
   if Nat.eqb (List.length l) (List.length chans)
   then PyLite.Ok (PNone, Some (dev_obj' cm flags rxp (zipw set_en chans l)))
-  else Exc "AssertionError".
+  else ExcS "AssertionError" (self_st (dev_obj' cm flags rxp chans)).
 Proof. update_loop "en" "chen" PBool set_en cm flags rxp chans l. Qed.
 
 Lemma div_channels_update_func n cm flags rxp chans l :
   call_func program (S (S n)) Device_div_channels_update [dev_obj' cm flags rxp chans; PList (map PInt l)] [] =
   if Nat.eqb (List.length l) (List.length chans)
   then PyLite.Ok (PNone, Some (dev_obj' cm flags rxp (zipw set_div chans l)))
-  else Exc "AssertionError".
+  else ExcS "AssertionError" (self_st (dev_obj' cm flags rxp chans)).
 Proof. update_loop "div" "chdiv" PInt set_div cm flags rxp chans l. Qed.
 
 #[local] Hint Resolve en_channels_update_func div_channels_update_func : pyspec.
@@ -761,7 +772,7 @@ Lemma device_init_func n chmax flags rxp chans :
     [PObj "Device" []; PInt chmax; PInt flags; PInt rxp; PList (map channel_obj chans)] [] =
   if nodupb (map cd_chan chans) && (zlen chans =? chmax)
   then PyLite.Ok (PNone, Some (dev_obj' chmax flags rxp chans))
-  else Exc "AssertionError".
+  else ExcS "AssertionError" (self_st (PObj "Device" [])).
 Proof.
   pystart. pysteps.
   loop_env (rd_env' [("self", PObj "Device" []); ("chmax", PInt chmax); ("flags", PInt flags);
